@@ -364,7 +364,7 @@ DsVal model_ds(const std::string &name, const std::string &arg, CallCtx &c) {
 Expansion model_expand(const std::string &fmt, long dsmax, long total_max, CallCtx &c) {
     Expansion x;
     std::vector<std::string> outs = {""};
-    auto app = [&](const std::string &s) { for (auto &o : outs) o += s; };
+    auto app = [&](const std::string &s) { for (auto &o : outs) o += s; if (!s.empty()) { x.segs.push_back({false, s}); x.cut_total += (long)s.size(); } };
     size_t pos = 0; bool ambiguous_tail = false; std::vector<std::string> stopped;
     while (pos < fmt.size()) {
         size_t t = fmt.find("%{", pos);
@@ -381,7 +381,7 @@ Expansion model_expand(const std::string &fmt, long dsmax, long total_max, CallC
         x.tags++;
         DsVal v = model_ds(name, arg, c);
         if (!v.known) {
-            app("[ERROR: Data source '" + name + "' not found.]"); x.shape += "?";
+            app("[ERROR: Data source '" + name + "' not found.]"); x.shape += "?"; x.segs_ok = false;
             // documentation fixes only the error text: both "stops here" and "continues" are accepted
             for (auto &o : outs) stopped.push_back(o);
             ambiguous_tail = true; pos = e + 1; continue;
@@ -389,6 +389,10 @@ Expansion model_expand(const std::string &fmt, long dsmax, long total_max, CallC
         if (!v.modelled) x.modelled = false;
         std::vector<std::string> vals = {v.text}; for (auto &a : v.alts) vals.push_back(a);
         std::vector<std::string> nouts;
+        if (vals.size() != 1 || !v.modelled || (v.failed && (long)v.text.size() > dsmax)) x.segs_ok = false;
+        else if (v.failed) { std::string t = "[ERROR: Data source '" + name + "' failed with the following error message: '" + v.text + "']"; x.segs.push_back({false, t}); x.cut_total += (long)t.size(); }
+        else if ((long)v.text.size() > dsmax) { x.segs.push_back({true, v.text}); x.cut_total += dsmax; }
+        else if (!v.text.empty()) { x.segs.push_back({false, v.text}); x.cut_total += (long)v.text.size(); }
         for (auto &val : vals) {
             std::string piece = val;
             if ((long)piece.size() > dsmax) { piece = piece.substr(0, (size_t)dsmax); x.exact = false; x.cut++; }
